@@ -611,9 +611,10 @@ def searches(tier: str):
         ]
     return [
         (Harness(("p", "t", "pt"), label="delivery "), 6, 3),
-        (Harness(("t", "eac", "es", "tf", "cr", "tf0", "es_mv", "tf_mv", "es_h3", "eac+es", "tf+tf", "es+cr", "p+eac"),
-                 statuses=("502",), undef=False, inject=("ev",), teardown=False, label="regions "), 4, 3),
-        (Harness(("p", "eac"), n_regions=3, label="multi-region ", **multi), 5, 2),
+        (Harness(("t", "eac", "es", "tf", "cr", "tf0", "es_mv", "tf_mv", "es_h3", "eac+es", "tf+tf"), statuses=("502",),
+                 undef=False, inject=("ev",), teardown=False, label="regions "), 4, 3),
+        (Harness(("p", "eac"), n_regions=2, label="multi-region ", **multi), 5, 2),
+        (Harness(("p", "eac"), n_regions=3, label="multi-region(3) ", **multi), 4, 1),
     ]
 
 
